@@ -3,15 +3,18 @@
 package c08
 
 import (
+	"database/sql"
 	"errors"
 	"fmt"
 	"reflect"
 	"sort"
+	"strconv"
 	"strings"
 	"testing"
 	"time"
 
 	"gorm.io/gorm"
+	"gorm.io/gorm/clause"
 	"pgregory.net/rapid"
 
 	"verif/internal/cond"
@@ -59,6 +62,42 @@ type PParent struct {
 }
 
 func (PParent) TableName() string { return "p_parents" }
+
+// EParent carries its soft-delete field in an embedded struct, CParent under a
+// field and column name of its own (same table layout otherwise).
+type Trail struct {
+	DeletedAt gorm.DeletedAt
+}
+
+type EParent struct {
+	ID   int `gorm:"primaryKey"`
+	Ca   int
+	Cb   int
+	Cs   string
+	Cn   *int
+	Ct   *string
+	Cor  int
+	Band string
+	Mark int
+	Trail
+}
+
+func (EParent) TableName() string { return "p_parents" }
+
+type CParent struct {
+	ID        int `gorm:"primaryKey"`
+	Ca        int
+	Cb        int
+	Cs        string
+	Cn        *int
+	Ct        *string
+	Cor       int
+	Band      string
+	Mark      int
+	RemovedOn gorm.DeletedAt `gorm:"column:removed_on"`
+}
+
+func (CParent) TableName() string { return "c_parents" }
 
 // Grand is the third level of the nested join path Child -> Parent -> Grand.
 type Grand struct {
@@ -121,6 +160,7 @@ var (
 	specParents  = cond.TableSpec{Name: "parents", Soft: true, Extra: []string{"grand_id"}}
 	specGrands   = cond.TableSpec{Name: "grands", Soft: true}
 	specPtr      = cond.TableSpec{Name: "p_parents", Soft: true}
+	specCol      = cond.TableSpec{Name: "c_parents", SoftCols: []string{"removed_on"}}
 	specChildren = cond.TableSpec{Name: "children", Soft: true, Extra: []string{"parent_id"}}
 	specToys     = cond.TableSpec{Name: "toys", Soft: true, Extra: []string{"child_id"}}
 	specTags     = cond.TableSpec{Name: "tags", Soft: true}
@@ -203,7 +243,10 @@ func (h hop) String() string {
 type tcase struct {
 	Parents, Children, Toys, Tags table    // state after the twins were marked
 	Grands                        table    // third level (nested join paths only)
-	PtrModel                      bool     // the primary model is PParent (DeletedAt *gorm.DeletedAt)
+	PtrModel                      bool     // the primary model is a variant with a table of its own (see Flavour)
+	Flavour                       string   // pointer (*gorm.DeletedAt) | embedded | column (own field/column name)
+	UnscopedVia                   string   // "" = Unscoped() in the chain | propagated (Session{PropagateUnscoped}.Unscoped().Session{NewDB}) | dropped (Unscoped().Session{NewDB}: scoped again)
+	Cfg                           string   // "" | PrepareStmt | QueryFields | NoReturning | tx (read paths)
 	JoinPath                      []string // relation join names in call order, e.g. ["Parent.Grand", "Parent"]
 	Links                         [][2]int
 	History                       []hop
@@ -233,6 +276,9 @@ func (c tcase) primary() string {
 		return "children"
 	}
 	if c.PtrModel {
+		if c.Flavour == "column" {
+			return "c_parents"
+		}
 		return "p_parents"
 	}
 	return "parents"
@@ -242,7 +288,7 @@ func (c tcase) String() string {
 	var b strings.Builder
 	fmt.Fprintf(&b, "parents=%s", c.Parents)
 	switch c.Path {
-	case "joins", "preload", "assoc":
+	case "joins", "preload", "assoc", "delete-assoc":
 		fmt.Fprintf(&b, " children=%s", c.Children)
 	}
 	if c.nested() {
@@ -254,7 +300,7 @@ func (c tcase) String() string {
 	if c.Path == "preload" && c.Variant == "Children.Toys" {
 		fmt.Fprintf(&b, " toys=%s", c.Toys)
 	}
-	if c.Variant == "Tags" {
+	if c.Variant == "Tags" || c.Variant == "Associations" || strings.HasPrefix(c.Variant, "Tags/") {
 		fmt.Fprintf(&b, " tags=%s links=%v", c.Tags, c.Links)
 	}
 	if len(c.History) > 0 {
@@ -265,15 +311,24 @@ func (c tcase) String() string {
 		fmt.Fprintf(&b, " history(%s)=%s", c.primary(), strings.Join(hs, ";"))
 	}
 	un0, un1 := "", ""
-	if c.Unscoped {
+	if c.Cfg != "" {
+		un0 = "[" + c.Cfg + "]"
+	}
+	switch c.UnscopedVia {
+	case "propagated":
+		un0 += ".Session{PropagateUnscoped}.Unscoped().Session{NewDB}"
+	case "dropped":
+		un0 += ".Unscoped().Session{NewDB}"
+	}
+	if c.Unscoped && c.UnscopedVia == "" {
 		if c.UnscopedLast {
 			un1 = ".Unscoped()"
 		} else {
-			un0 = ".Unscoped()"
+			un0 += ".Unscoped()"
 		}
 	}
 	if c.PtrModel {
-		b.WriteString(" model=PParent{DeletedAt *gorm.DeletedAt}")
+		b.WriteString(" model=" + c.Flavour + "-DeletedAt")
 	}
 	fmt.Fprintf(&b, " op=%s/%s db%s%s%s", c.Path, c.Variant, un0, cond.CallsString(c.Calls), un1)
 	if c.Inline != nil {
@@ -296,7 +351,7 @@ func (c tcase) String() string {
 
 // ---- generation ---------------------------------------------------------------------------------
 
-var paths = []string{"find", "find", "first", "count", "count-then", "count-then", "pluck", "batches", "rows", "scan", "joins", "joins", "joins", "preload", "preload", "assoc", "assoc", "update", "update", "update", "delete", "delete", "delete"}
+var paths = []string{"find", "find", "first", "count", "count-then", "count-then", "firstorinit", "delete-assoc", "pluck", "batches", "rows", "scan", "joins", "joins", "joins", "preload", "preload", "assoc", "assoc", "update", "update", "update", "delete", "delete", "delete"}
 
 func skipClass(cl string) bool { return harness.OpenClass("C08", cl) }
 
@@ -394,11 +449,63 @@ func genCase(rt *rapid.T) tcase {
 	}
 	switch c.Path {
 	case "count", "pluck", "scan", "update", "delete":
-		c.PtrModel = x.Pct(30)
+		c.PtrModel = x.Pct(35)
+		c.Flavour = []string{"pointer", "embedded", "column"}[x.N(3)]
+		if !c.PtrModel {
+			c.Flavour = ""
+		}
+	}
+	// (Unscoped().Session{NewDB} without PropagateUnscoped is not generated: whether
+	// the new statement is scoped again depends on the next call - Session{}
+	// turns the NewDB handle back into a clone of the unscoped statement - and
+	// no document says which it should be)
+	if x.N(10) == 0 {
+		c.Unscoped, c.UnscopedVia = true, "propagated"
+	}
+	if x.Pct(25) {
+		c.Cfg = []string{"PrepareStmt", "QueryFields", "NoReturning", "tx"}[x.N(4)]
+		switch c.Path {
+		case "update", "delete":
+			if c.Cfg == "tx" { // the table is dumped from a second connection around writes
+				c.Cfg = "PrepareStmt"
+			}
+		}
 	}
 	switch c.Path {
 	case "find":
+		c.Variant = []string{"", "", "&[]*Parent", "&[]map"}[x.N(4)]
 		inline(30)
+	case "rows":
+		c.Variant = []string{"rows", "rows", "row"}[x.N(3)]
+	case "firstorinit":
+		// "each conds must be a struct or map": when nothing is found the equality
+		// conditions are assigned to the destination, so only Where calls with
+		// struct units or maps of scalars are in the documented domain
+		kept := c.Calls[:0]
+		for _, cl := range c.Calls {
+			ok := cl.Verb == cond.VWhere && !cl.ViaClauses && cl.U.Form == cond.FStruct && len(cl.U.Args) == 0
+			if m, isMap := cl.U.Query.(map[string]interface{}); isMap && cl.Verb == cond.VWhere {
+				ok = true
+				for _, v := range m {
+					switch v.(type) {
+					case int, string:
+					default:
+						ok = false
+					}
+				}
+			}
+			if ok {
+				kept = append(kept, cl)
+			}
+		}
+		c.Calls = kept
+	case "delete-assoc":
+		// Select("Children").Delete(&Parent{ID}): no further conditions
+		c.Calls = nil
+		c.Children = genTable(x, rt, x.N(7), pids)
+		all := ids(c.Parents)
+		c.PK = all[x.N(len(all))]
+		c.Cfg, c.PtrModel, c.Flavour = "", false, ""
 	case "count-then":
 		c.Variant = []string{"find", "order-limit-find", "pluck", "first"}[x.N(4)]
 	case "first":
@@ -433,8 +540,10 @@ func genCase(rt *rapid.T) tcase {
 			}
 		}
 	case "preload":
-		c.Variant = []string{"Children", "Children", "Children.Toys", "Tags"}[x.N(4)]
+		c.Variant = []string{"Children", "Children", "Children.Toys", "Tags", "Associations"}[x.N(5)]
 		switch c.Variant {
+		case "Associations":
+			c.genTags(x, rt)
 		case "Children.Toys":
 			c.Toys = genTable(x, rt, x.N(6), append(ids(c.Children), 999))
 		case "Tags":
@@ -447,7 +556,7 @@ func genCase(rt *rapid.T) tcase {
 			}
 		}
 	case "assoc":
-		c.Variant = []string{"Children", "Tags"}[x.N(2)] + []string{"/find", "/count"}[x.N(2)]
+		c.Variant = []string{"Children", "Tags", "Parent"}[x.N(3)] + []string{"/find", "/count"}[x.N(2)]
 		if strings.HasPrefix(c.Variant, "Tags") {
 			c.genTags(x, rt)
 		}
@@ -549,6 +658,7 @@ type world struct {
 	// current model of the primary table (copy; history and writes update it)
 	prim     table
 	primSpec cond.TableSpec
+	tx       *gorm.DB // open transaction of the Cfg "tx" variant
 }
 
 func (w *world) primModel() interface{} {
@@ -560,29 +670,40 @@ func (w *world) primModel() interface{} {
 
 // model returns the primary model value with the given key (parents paths).
 func (w *world) model(pk int) interface{} {
-	if w.c.PtrModel {
+	switch w.c.Flavour {
+	case "pointer":
 		return &PParent{ID: pk}
+	case "embedded":
+		return &EParent{ID: pk}
+	case "column":
+		return &CParent{ID: pk}
 	}
 	return &Parent{ID: pk}
 }
 
 func (w *world) markedValue() interface{} {
-	if w.c.PtrModel {
+	switch w.c.Flavour {
+	case "pointer":
 		return PParent{Mark: 7}
+	case "embedded":
+		return EParent{Mark: 7}
+	case "column":
+		return CParent{Mark: 7}
 	}
 	return Parent{Mark: 7}
 }
 
 func setup(c *tcase) (*world, error) {
 	k := &clock{}
-	d := testdb.Open(testdb.Options{Config: gorm.Config{NowFunc: k.now}})
+	d := testdb.Open(testdb.Options{NoReturning: c.Cfg == "NoReturning", Config: gorm.Config{NowFunc: k.now,
+		PrepareStmt: c.Cfg == "PrepareStmt", QueryFields: c.Cfg == "QueryFields"}})
 	w := &world{d: d, c: c}
 	fail := func(what string, err error) (*world, error) {
 		d.Close()
 		return nil, fmt.Errorf("%s: %w", what, err)
 	}
 	joins := c.Path == "joins"
-	for _, s := range []cond.TableSpec{specParents, specChildren, specToys, specTags, specGrands, specPtr} {
+	for _, s := range []cond.TableSpec{specParents, specChildren, specToys, specTags, specGrands, specPtr, specCol} {
 		if err := s.Create(d.SQL); err != nil {
 			return fail("create", err)
 		}
@@ -626,11 +747,14 @@ func setup(c *tcase) (*world, error) {
 	}
 	w.env = cond.Env{Base: d.DB}
 	if c.PtrModel {
-		if err := specPtr.Insert(d.SQL, noExtra(toInsert(c.Parents, false))); err != nil {
-			return fail("insert p_parents", err)
-		}
 		w.primSpec = specPtr
-		w.env.MakeStruct = cond.StructMaker(reflect.TypeOf(PParent{}))
+		if c.Flavour == "column" {
+			w.primSpec = specCol
+		}
+		if err := w.primSpec.Insert(d.SQL, noExtra(toInsert(c.Parents, false))); err != nil {
+			return fail("insert "+w.primSpec.Name, err)
+		}
+		w.env.MakeStruct = cond.StructMaker(reflect.TypeOf(w.model(0)).Elem())
 	} else if joins {
 		w.env.MakeStruct = cond.StructMaker(reflect.TypeOf(Child{}))
 	} else {
@@ -639,7 +763,30 @@ func setup(c *tcase) (*world, error) {
 	return w, nil
 }
 
-func (w *world) close() { w.d.Close() }
+func (w *world) close() {
+	if w.tx != nil {
+		w.tx.Rollback()
+	}
+	w.d.Close()
+}
+
+// root is the handle the checked operation starts from.
+func (w *world) root() *gorm.DB {
+	db := w.d.DB
+	if w.c.Cfg == "tx" {
+		if w.tx == nil {
+			w.tx = w.d.DB.Begin()
+		}
+		db = w.tx
+	}
+	switch w.c.UnscopedVia {
+	case "propagated":
+		db = db.Session(&gorm.Session{PropagateUnscoped: true}).Unscoped().Session(&gorm.Session{NewDB: true})
+	case "dropped":
+		db = db.Unscoped().Session(&gorm.Session{NewDB: true})
+	}
+	return db
+}
 
 // history marks the twins through gorm and applies the further steps; every
 // step is compared with the live/marked/gone model. Returns a violation text.
@@ -669,7 +816,8 @@ func (w *world) history() (string, error) {
 			if w.c.Path == "joins" {
 				v = &Child{ID: r.ID, Ca: r.Ca, Cb: r.Cb, Cs: r.Cs, Cn: r.Cn, Ct: r.Ct, Cor: r.Cor, Band: r.Band, ParentID: r.FK}
 			} else if w.c.PtrModel {
-				v = &PParent{ID: r.ID, Ca: r.Ca, Cb: r.Cb, Cs: r.Cs, Cn: r.Cn, Ct: r.Ct, Cor: r.Cor, Band: r.Band}
+				fill := cond.StructMaker(reflect.TypeOf(w.model(0)).Elem())
+				v = fill(map[string]interface{}{"id": r.ID, "ca": r.Ca, "cb": r.Cb, "cs": r.Cs, "cn": r.Cn, "ct": r.Ct, "cor": r.Cor, "band": r.Band}, true)
 			} else {
 				v = &Parent{ID: r.ID, Ca: r.Ca, Cb: r.Cb, Cs: r.Cs, Cn: r.Cn, Ct: r.Ct, Cor: r.Cor, Band: r.Band}
 			}
@@ -796,11 +944,12 @@ const updated = 3 // pseudo state for compare: marker column set
 // base returns the handle the chain is applied to.
 func (w *world) chain(db *gorm.DB) *gorm.DB {
 	c := w.c
-	if c.Unscoped && !c.UnscopedLast {
+	inChain := c.Unscoped && c.UnscopedVia == ""
+	if inChain && !c.UnscopedLast {
 		db = db.Unscoped()
 	}
 	db = cond.ApplyCalls(db, w.env, c.Calls)
-	if c.Unscoped && c.UnscopedLast {
+	if inChain && c.UnscopedLast {
 		db = db.Unscoped()
 	}
 	return db
@@ -895,15 +1044,63 @@ func parentIDs(ps []Parent) []int {
 // run executes the checked operation and judges it. Returns a violation text.
 func (w *world) run() (string, error) {
 	c := w.c
-	db := w.d.DB
+	db := w.root()
 	switch c.Path {
 	case "find":
-		var ps []Parent
-		tx := w.chain(db).Find(&ps, w.inline()...)
+		var got []int
+		var tx *gorm.DB
+		switch c.Variant {
+		case "&[]*Parent":
+			var ps []*Parent
+			tx = w.chain(db).Find(&ps, w.inline()...)
+			for _, p := range ps {
+				got = append(got, p.ID)
+			}
+		case "&[]map":
+			var ms []map[string]interface{}
+			tx = w.chain(db.Model(&Parent{})).Find(&ms, w.inline()...)
+			for _, m := range ms {
+				id, err := strconv.Atoi(fmt.Sprint(m["id"]))
+				if err != nil {
+					return "", fmt.Errorf("map destination: id %v (%T)", m["id"], m["id"])
+				}
+				got = append(got, id)
+			}
+		default:
+			var ps []Parent
+			tx = w.chain(db).Find(&ps, w.inline()...)
+			got = parentIDs(ps)
+		}
 		if tx.Error != nil {
 			return "Find failed: " + tx.Error.Error(), nil
 		}
-		return w.judgeRead(w.prim, parentIDs(ps), c.pred(), "Find"), nil
+		return w.judgeRead(w.prim, got, c.pred(), "Find("+c.Variant+")"), nil
+	case "firstorinit":
+		var p Parent
+		tx := w.chain(db).FirstOrInit(&p)
+		if tx.Error != nil {
+			return "FirstOrInit failed: " + tx.Error.Error(), nil
+		}
+		var got []int
+		if tx.RowsAffected > 0 {
+			got = []int{p.ID}
+		}
+		for _, id := range got {
+			if r := w.prim.find(id); r == nil || r.State == gone || (r.State == marked && !c.Unscoped) {
+				return fmt.Sprintf("FirstOrInit found id %d which is soft-deleted or gone", id), nil
+			}
+		}
+		if c.exact() {
+			pred := c.pred()
+			want := cond.Select(w.prim.visible(c.Unscoped), pred)
+			if len(want) > 1 {
+				want = want[:1]
+			}
+			if !cond.SameIDs(sorted(got), want) {
+				return fmt.Sprintf("FirstOrInit found %v, want %v (first of the %s rows satisfying %s)", got, want, vis(c.Unscoped), pred), nil
+			}
+		}
+		return "", nil
 	case "first":
 		p := Parent{ID: c.PK}
 		tx := w.chain(db)
@@ -1059,6 +1256,35 @@ func (w *world) run() (string, error) {
 		}
 		return w.judgeRead(w.prim, got, c.pred(), "FindInBatches"), nil
 	case "rows":
+		if c.Variant == "row" {
+			var id int
+			err := w.chain(db.Model(&Parent{}).Select("id")).Row().Scan(&id)
+			var got []int
+			switch {
+			case errors.Is(err, sql.ErrNoRows):
+			case err != nil:
+				return "Row().Scan failed: " + err.Error(), nil
+			default:
+				got = []int{id}
+			}
+			for _, id := range got {
+				if r := w.prim.find(id); r == nil || r.State == gone || (r.State == marked && !c.Unscoped) {
+					return fmt.Sprintf("Row() returned id %d which is soft-deleted or gone", id), nil
+				}
+			}
+			if c.exact() {
+				pred := c.pred()
+				want := cond.Select(w.prim.visible(c.Unscoped), pred)
+				ok := len(want) == 0 && len(got) == 0
+				for _, id := range want {
+					ok = ok || (len(got) == 1 && got[0] == id)
+				}
+				if !ok {
+					return fmt.Sprintf("Row() returned %v, want one of %v (reference predicate %s over the %s rows)", got, want, pred, vis(c.Unscoped)), nil
+				}
+			}
+			return "", nil
+		}
 		rows, err := w.chain(db.Model(&Parent{})).Rows()
 		if err != nil {
 			return "Rows failed: " + err.Error(), nil
@@ -1094,6 +1320,8 @@ func (w *world) run() (string, error) {
 		return w.runPreload()
 	case "assoc":
 		return w.runAssoc()
+	case "delete-assoc":
+		return w.runDeleteAssoc()
 	case "update":
 		return w.runUpdate()
 	case "delete":
@@ -1104,7 +1332,7 @@ func (w *world) run() (string, error) {
 
 func (w *world) runJoins() (string, error) {
 	c := w.c
-	db := w.d.DB
+	db := w.root()
 	path := c.JoinPath
 	if len(path) == 0 {
 		path = []string{"Parent"}
@@ -1209,60 +1437,72 @@ func (w *world) runJoins() (string, error) {
 
 func (w *world) runPreload() (string, error) {
 	c := w.c
-	db := w.d.DB
+	db := w.root()
 	var args []interface{}
 	if c.Pre != nil {
 		args = c.Pre.Inline(cond.Env{Base: db, MakeStruct: cond.StructMaker(reflect.TypeOf(Child{}))})
 	}
 	var ps []Parent
-	tx := w.chain(db.Preload(c.Variant, args...)).Find(&ps, w.inline()...)
+	relName := c.Variant
+	if relName == "Associations" {
+		relName = clause.Associations
+	}
+	tx := w.chain(db.Preload(relName, args...)).Find(&ps, w.inline()...)
 	if tx.Error != nil {
 		return "Preload(" + c.Variant + ") failed: " + tx.Error.Error(), nil
 	}
 	if msg := w.judgeRead(w.prim, parentIDs(ps), c.pred(), "Preload("+c.Variant+").Find"); msg != "" {
 		return msg, nil
 	}
+	variants := []string{c.Variant}
+	name := c.Variant
+	if c.Variant == "Associations" {
+		variants = []string{"Tags", "Children"}
+	}
 	for _, p := range ps {
-		switch c.Variant {
-		case "Tags":
-			var got, want []int
-			for _, t := range p.Tags {
-				got = append(got, t.ID)
-			}
-			for _, l := range c.Links {
-				if l[0] == p.ID && c.Tags.isVisible(l[1], c.Unscoped) {
-					want = append(want, l[1])
+		for _, variant := range variants {
+			_ = name
+			switch variant {
+			case "Tags":
+				var got, want []int
+				for _, t := range p.Tags {
+					got = append(got, t.ID)
 				}
-			}
-			if !cond.SameIDs(sorted(got), sorted(want)) {
-				return fmt.Sprintf("Preload(Tags): parent %d got tags %v, want %v (the %s linked tags)", p.ID, got, want, vis(c.Unscoped)), nil
-			}
-		default:
-			var got, want []int
-			for _, ch := range p.Children {
-				got = append(got, ch.ID)
-			}
-			for _, r := range c.Children {
-				if r.FK == p.ID && c.Children.isVisible(r.ID, c.Unscoped) && (c.Pre == nil || c.Pre.Pred().Eval(r.Row) == cond.T) {
-					want = append(want, r.ID)
+				for _, l := range c.Links {
+					if l[0] == p.ID && c.Tags.isVisible(l[1], c.Unscoped) {
+						want = append(want, l[1])
+					}
 				}
-			}
-			if !cond.SameIDs(sorted(got), sorted(want)) {
-				return fmt.Sprintf("Preload(Children): parent %d got children %v, want %v (the %s children satisfying the preload condition)", p.ID, got, want, vis(c.Unscoped)), nil
-			}
-			if c.Variant == "Children.Toys" {
+				if !cond.SameIDs(sorted(got), sorted(want)) {
+					return fmt.Sprintf("Preload(Tags): parent %d got tags %v, want %v (the %s linked tags)", p.ID, got, want, vis(c.Unscoped)), nil
+				}
+			default:
+				var got, want []int
 				for _, ch := range p.Children {
-					var got, want []int
-					for _, t := range ch.Toys {
-						got = append(got, t.ID)
+					got = append(got, ch.ID)
+				}
+				for _, r := range c.Children {
+					if r.FK == p.ID && c.Children.isVisible(r.ID, c.Unscoped) && (c.Pre == nil || c.Pre.Pred().Eval(r.Row) == cond.T) {
+						want = append(want, r.ID)
 					}
-					for _, r := range c.Toys {
-						if r.FK == ch.ID && c.Toys.isVisible(r.ID, c.Unscoped) {
-							want = append(want, r.ID)
+				}
+				if !cond.SameIDs(sorted(got), sorted(want)) {
+					return fmt.Sprintf("Preload(Children): parent %d got children %v, want %v (the %s children satisfying the preload condition)", p.ID, got, want, vis(c.Unscoped)), nil
+				}
+				if variant == "Children.Toys" {
+					for _, ch := range p.Children {
+						var got, want []int
+						for _, t := range ch.Toys {
+							got = append(got, t.ID)
 						}
-					}
-					if !cond.SameIDs(sorted(got), sorted(want)) {
-						return fmt.Sprintf("Preload(Children.Toys): child %d got toys %v, want %v (the %s toys)", ch.ID, got, want, vis(c.Unscoped)), nil
+						for _, r := range c.Toys {
+							if r.FK == ch.ID && c.Toys.isVisible(r.ID, c.Unscoped) {
+								want = append(want, r.ID)
+							}
+						}
+						if !cond.SameIDs(sorted(got), sorted(want)) {
+							return fmt.Sprintf("Preload(Children.Toys): child %d got toys %v, want %v (the %s toys)", ch.ID, got, want, vis(c.Unscoped)), nil
+						}
 					}
 				}
 			}
@@ -1273,13 +1513,48 @@ func (w *world) runPreload() (string, error) {
 
 func (w *world) runAssoc() (string, error) {
 	c := w.c
-	db := w.d.DB
+	db := w.root()
 	rel := strings.Split(c.Variant, "/")[0]
 	find := strings.HasSuffix(c.Variant, "/find")
 	owner := Parent{ID: c.PK}
 	env := w.env
 	var t table
 	var pred *cond.Node
+	if rel == "Parent" {
+		// belongs to: the owner is a child whose parent_id is c.PK; the related
+		// key is AND-ed after the chain
+		child := Child{ID: 1, ParentID: c.PK}
+		t = w.prim
+		pred = c.pred(cond.Atom("id", cond.OpEq, cond.IntV(c.PK)))
+		as := w.chain(db.Model(&child)).Association("Parent")
+		if as.Error != nil {
+			return "Association failed: " + as.Error.Error(), nil
+		}
+		if find {
+			var ps []Parent
+			if err := as.Find(&ps, w.inline()...); err != nil {
+				return "Association(Parent).Find failed: " + err.Error(), nil
+			}
+			if !c.exact() {
+				// the related key is part of the conditions: no twin symmetry to assert, only visibility
+				for _, p := range ps {
+					if !t.isVisible(p.ID, c.Unscoped) {
+						return fmt.Sprintf("Association(Parent).Find returned id %d which is soft-deleted or gone", p.ID), nil
+					}
+				}
+				return "", nil
+			}
+			return w.judgeRead(t, parentIDs(ps), pred, "Association(Parent).Find"), nil
+		}
+		n := as.Count()
+		if as.Error != nil {
+			return "Association(Parent).Count failed: " + as.Error.Error(), nil
+		}
+		if want := cond.Select(t.visible(c.Unscoped), pred); c.exact() && n != int64(len(want)) {
+			return fmt.Sprintf("Association(Parent).Count returned %d, want %d = ids %v (reference predicate %s over the %s rows)", n, len(want), want, pred, vis(c.Unscoped)), nil
+		}
+		return "", nil
+	}
 	if rel == "Children" {
 		env.MakeStruct = cond.StructMaker(reflect.TypeOf(Child{}))
 		for _, r := range c.Children {
@@ -1343,12 +1618,60 @@ func (w *world) runAssoc() (string, error) {
 	return "", nil
 }
 
+// runDeleteAssoc: Select("Children").Delete(&Parent{ID: k}) deletes the parent
+// and, through a nested statement, its children - softly without Unscoped,
+// physically with it (the nested statement inherits Unscoped).
+func (w *world) runDeleteAssoc() (string, error) {
+	c := w.c
+	db := w.root()
+	beforeP, err := specParents.Dump(w.d.SQL)
+	if err != nil {
+		return "", err
+	}
+	beforeC, err := specChildren.Dump(w.d.SQL)
+	if err != nil {
+		return "", err
+	}
+	tx := w.chain(db).Select("Children").Delete(&Parent{ID: c.PK})
+	if tx.Error != nil {
+		return "Select(Children).Delete failed: " + tx.Error.Error(), nil
+	}
+	afterP, err := specParents.Dump(w.d.SQL)
+	if err != nil {
+		return "", err
+	}
+	afterC, err := specChildren.Dump(w.d.SQL)
+	if err != nil {
+		return "", err
+	}
+	to := marked
+	if c.Unscoped {
+		to = gone
+	}
+	expP, expC := map[int]int{}, map[int]int{}
+	if r := w.prim.find(c.PK); r != nil && (r.State == live || (c.Unscoped && r.State == marked)) {
+		expP[c.PK] = to
+	}
+	for _, r := range c.Children {
+		if r.FK == c.PK && (r.State == live || (c.Unscoped && r.State == marked)) {
+			expC[r.ID] = to
+		}
+	}
+	if msg := w.compare(beforeP, afterP, expP); msg != "" {
+		return "Select(Children).Delete, parents: " + msg, nil
+	}
+	if msg := w.compare(beforeC, afterC, expC); msg != "" {
+		return "Select(Children).Delete, children of parent " + fmt.Sprint(c.PK) + ": " + msg, nil
+	}
+	return "", nil
+}
+
 // noCondition: the chain carries no effective condition at all.
 func (c *tcase) noCondition() bool { return c.pred() == nil }
 
 func (w *world) runUpdate() (string, error) {
 	c := w.c
-	db := w.d.DB
+	db := w.root()
 	before, err := w.primSpec.Dump(w.d.SQL)
 	if err != nil {
 		return "", err
@@ -1416,7 +1739,7 @@ func (w *world) runUpdate() (string, error) {
 
 func (w *world) runDelete() (string, error) {
 	c := w.c
-	db := w.d.DB
+	db := w.root()
 	rounds := 1
 	if c.Repeat {
 		rounds = 2
@@ -1583,6 +1906,12 @@ func classes(c tcase) []string {
 	} else {
 		cl = append(cl, "scope:scoped")
 	}
+	if c.UnscopedVia != "" {
+		cl = append(cl, "unscoped-via:"+c.UnscopedVia)
+	}
+	if c.Cfg != "" {
+		cl = append(cl, "config:"+c.Cfg)
+	}
 	if leadingOr(c.Calls) {
 		cl = append(cl, "chain:leading-or")
 	}
@@ -1602,7 +1931,7 @@ func classes(c tcase) []string {
 		cl = append(cl, "delete:repeated")
 	}
 	if c.PtrModel {
-		cl = append(cl, "model:pointer-deleted-at", "pointer-deleted-at:"+c.Path)
+		cl = append(cl, "model:"+c.Flavour+"-deleted-at", c.Flavour+"-deleted-at:"+c.Path)
 	}
 	for _, h := range c.History {
 		if h.Create != nil {
